@@ -244,7 +244,16 @@ def shared_state_sites(repo: Path) -> list[str]:
                     classvar = ann is not None and "ClassVar" in ann
                     if tgt.id in ("model_config", "__slots__", "__all__"): continue
                     if mutable_value(val) and (classvar or not model):
-                        sites.append(f"{rel}:{st.lineno}: class attribute {n.name}.{tgt.id} = {ast.unparse(val)[:40]}")
+                        # ... that somebody edits in place through an attribute access (x.name.append / x.name[k] = / x.name += ...); a container nobody edits is a constant
+                        def edited(nm):
+                            for m_ in (x_ for tt_ in trees.values() for x_ in ast.walk(tt_)):          # anywhere in the package (a subclass in another module)
+                                if isinstance(m_, ast.Call) and isinstance(m_.func, ast.Attribute) and m_.func.attr in MUTATORS and isinstance(m_.func.value, ast.Attribute) and m_.func.value.attr == nm: return True
+                                if isinstance(m_, ast.Subscript) and isinstance(m_.ctx, (ast.Store, ast.Del)) and isinstance(m_.value, ast.Attribute) and m_.value.attr == nm: return True
+                                if isinstance(m_, ast.AugAssign) and isinstance(m_.target, ast.Attribute) and m_.target.attr == nm: return True
+                                if isinstance(m_, ast.Call) and ast.unparse(m_.func) in ("setattr",) and len(m_.args) >= 2 and isinstance(m_.args[1], ast.Constant) and m_.args[1].value == nm: return True
+                            return False
+                        if edited(tgt.id):
+                            sites.append(f"{rel}:{st.lineno}: class attribute {n.name}.{tgt.id} = {ast.unparse(val)[:40]} (edited in place)")
         # module level
         top = {}
         for st in t.body:
